@@ -1,6 +1,13 @@
 """Single table of claimed checks; bin/mkmanifest renders MANIFEST.json from it."""
 
 CHECKS = {
+    "C10": dict(
+        level="fault_enumeration",
+        technique="TLA+ spec GenConst: the constness machine (a write form is enabled only on a mutable binding) and the exhaustive enumeration of (declaration, write form, write context) triples for which the form denotes a write to the declared binding (IsWrite); each triple is rendered with `const` (TLC judge CheckConst demands compile-time rejection with a file:line:col diagnostic and that nothing ran) and as its mutable twin (must behave as MSLang prescribes, i.e. the write is really a write)",
+        text="Exhaustive fault enumeration: every triple of the catalogue (10 declaration kinds x 15 write forms x 5 contexts, filtered by IsWrite) is executed; the twin guards against vacuous rejection.",
+        note="Names imported with `import a from m` are local copies (pinned by the repository's test) and excluded; plain assignment / counter / unpack inside a nested function or method declare locals and are not writes; a counter re-using a name of an enclosing block is unspecified and excluded.",
+        design="5/C10",
+    ),
     "C16": dict(
         level="exploration",
         technique="TLA+ spec MSGrammar supplies the input space: a derivation machine over a transcription of grammar.pest (leftmost expansion, depth budget) and a token-edit machine (delete / duplicate / swap / replace / insert, up to 3 edits) over the tokenised example corpus, explored by TLC BFS (all single structural edits) and seeded -simulate; the oracle is the post-condition of the real `compile`: ends within 10 s with exit 0 or 1",
